@@ -91,6 +91,7 @@ type world struct {
 	sub      *polling.Subscriber
 	peerHas  []int // certificates each peer holds
 	reqTime  time.Duration
+	during   int // certificates to put into the local store while the next request is in flight
 	peerFail []bool
 	waits    chan time.Duration
 	cancel   context.CancelFunc
@@ -133,9 +134,18 @@ func newWorld(set settings, npeers int, running bool) *world {
 				rep.Reset = true
 				return rep
 			}
-			if w.reqTime > 0 {
-				d := w.reqTime
-				rep.Before = func() { w.waitGate(); w.clk.Add(d) }
+			if w.reqTime > 0 || w.during > 0 {
+				d, k := w.reqTime, w.during
+				w.during = 0
+				rep.Before = func() {
+					if k > 0 {
+						w.produce(k, true)
+					}
+					if d > 0 {
+						w.waitGate()
+						w.clk.Add(d)
+					}
+				}
 			}
 			for k := req.FirstInstance; k < uint64(w.peerHas[i]) && uint64(len(rep.Blobs)) < req.Limit && len(rep.Blobs) < 256; k++ {
 				rep.Blobs = append(rep.Blobs, blobs[k])
@@ -333,6 +343,9 @@ type step struct {
 	Local bool `json:"local"`
 	Req   int  `json:"request_time_quarters"` // request time in quarters of the initial interval (0, 1, 4)
 	Fail  bool `json:"peer0_fails,omitempty"`
+	// During: the K certificates arrive in the node's own store while its first request of the round is in flight
+	// (instead of before the tick); the peers do not have them.
+	During bool `json:"local_during_request,omitempty"`
 }
 
 func (s step) String() string {
@@ -343,6 +356,9 @@ func (s step) String() string {
 	f := ""
 	if s.Fail {
 		f = "!fail"
+	}
+	if s.During {
+		src = "local-during-request"
 	}
 	return fmt.Sprintf("%d@%s/req%d%s", s.K, src, s.Req, f)
 }
@@ -361,7 +377,11 @@ func runSequence(set settings, npeers int, seq []step) (fp, what string, timedOu
 	defer w.stop()
 	next := w.start.Add(set.Initial)
 	for i, st := range seq {
-		w.produce(st.K, st.Local)
+		if st.During {
+			w.during = st.K
+		} else {
+			w.produce(st.K, st.Local)
+		}
 		w.reqTime = time.Duration(st.Req) * set.Initial / 4
 		w.peerFail[0] = st.Fail
 		o, fp, what := w.tick(next)
@@ -410,6 +430,7 @@ func main() {
 					rec(append(cur, step{K: k, Local: loc}))
 				}
 			}
+			rec(append(cur, step{K: 1, During: true}))
 		}
 		rec(nil)
 		for _, npeers := range []int{1, 2} {
@@ -418,7 +439,11 @@ func main() {
 				ctx := context.WithValue(context.Background(), worldKey{}, (*world)(nil))
 				for i, st := range seq {
 					evals++
-					w.produce(st.K, st.Local)
+					if st.During {
+						w.during = st.K
+					} else {
+						w.produce(st.K, st.Local)
+					}
 					if npeers == 2 && i == 1 {
 						w.peerHas[1] = max(0, w.peerHas[1]-1) // a lagging peer
 					}
@@ -438,7 +463,8 @@ func main() {
 						panic(err)
 					}
 					after := w.sub.VerifNextInstance()
-					if storeNext := w.latestNext(); after != storeNext {
+					if storeNext := w.latestNext(); after > storeNext || (after != storeNext && !st.During) {
+						// (a certificate that reached the store while the last request was in flight is picked up by the next catch-up)
 						chk.Violation("poller-next-instance-not-store", fmt.Sprintf("ticks [%s] #%d: poller next instance %d, store next %d", stepsStr(seq), i, after, storeNext), rep)
 						chk.Finish()
 					}
@@ -469,7 +495,7 @@ func main() {
 			}
 		}
 	}
-	menu = append(menu, step{K: 1, Fail: true}, step{K: 0, Fail: true})
+	menu = append(menu, step{K: 1, Fail: true}, step{K: 0, Fail: true}, step{K: 1, During: true, Req: 1}, step{K: 1, During: true})
 	var seqs [][]step
 	var rec func(cur []step)
 	rec = func(cur []step) {
